@@ -429,6 +429,8 @@ func runC19(c *Ctx) {
 		}
 		c.Floor("C19-R5", "'stored > latest' test in "+spec[1], n, 1)
 	}
+	checkMigrationRefusalBeforeWrites(c, "C19-R4")
+	checkUpgradeStopsAtFirstFailure(c, "C19-R1")
 }
 
 func isResultOfInvoke(v ssa.Value, method string, idx int) bool {
@@ -711,4 +713,56 @@ func versionTable(p *Program, pkg string) ([]int64, token.Pos, bool) {
 		}
 	}
 	return nil, token.NoPos, false
+}
+
+// checkUpgradeStopsAtFirstFailure: migration.Upgrade runs the managers one after the other inside the caller's single
+// database transaction and relies on the returned error to have it rolled back: the first failing manager ends the
+// loop with that error — no later manager is upgraded after it, and no later success can overwrite the error.
+func checkUpgradeStopsAtFirstFailure(c *Ctx, rule string) {
+	p := c.P
+	up := p.Func("walletdb/migration", "", "Upgrade")
+	inner := p.Func("walletdb/migration", "", "upgrade")
+	if up == nil || inner == nil {
+		c.Unresolved(rule, "migration.Upgrade / migration.upgrade")
+		return
+	}
+	n := 0
+	for _, l := range loopsOf(up) {
+		if !l.containsInstr(func(i ssa.Instruction) bool { return p.isCallTo(i, inner) }) {
+			continue
+		}
+		for b := range l.Blocks {
+			for _, ins := range b.Instrs {
+				call, ok := ins.(*ssa.Call)
+				if !ok || !p.isCallTo(ins, inner) {
+					continue
+				}
+				n++
+				// from the failure edge of this call, the next iteration must be unreachable and every return carries the error
+				okStop := true
+				found := false
+				for _, bb := range up.Blocks {
+					for si := range bb.Succs {
+						ef := edgeFactOf(bb, si)
+						if ef == nil || ef.Kind != "nonnil" || !loadIsResultOf(ef.V, call) {
+							continue
+						}
+						found = true
+						q := &PathQuery{Fn: up}
+						q.LoopExit = func(from, to *ssa.BasicBlock) bool { return to == l.Header }
+						q.Target = func(i ssa.Instruction, via *ssa.BasicBlock) bool {
+							r, ok := i.(*ssa.Return)
+							return ok && p.classifyReturn(r, via) != retError
+						}
+						if len(exploreFromBlock(q, bb.Succs[si], bb)) > 0 {
+							okStop = false
+						}
+					}
+				}
+				c.Check(rule, "first-failing-manager-stops-upgrade", call.Pos(), found && okStop,
+					"migration.Upgrade goes on to the next manager (or can return success) after a manager's upgrade failed: the enclosing transaction commits a half-applied migration, or a newer-than-understood service does not stop the others from being migrated")
+			}
+		}
+	}
+	c.Floor(rule, "manager loops in migration.Upgrade", n, 1)
 }
